@@ -163,6 +163,7 @@ struct Proc {
   int handle = -1;             // harness handle that forked it
   int start_op = -1;
   int reaps = 0;
+  bool err_merged = false;     // at image creation descriptor 2 shared the open file description of descriptor 1
   bool child_phase = false;    // still running reproc's child-side code
   bool is_caller = false;
 };
